@@ -20,12 +20,13 @@ func init() {
 }
 
 type textFlow struct {
-	c        *Ctx
-	field    string // "Title" or "Body"
-	problems []string
-	seen     map[ssa.Value]bool
-	steps    int
-	sawStdin bool // the walk reached io.ReadAll(os.Stdin)
+	c          *Ctx
+	field      string // "Title" or "Body"
+	problems   []string
+	seen       map[ssa.Value]bool
+	steps      int
+	sawStdin   bool   // the walk reached io.ReadAll(os.Stdin)
+	trimmedKey string // the update key whose value was trimmed on the way (the documented `set` trimming)
 }
 
 func (t *textFlow) bad(format string, a ...any) {
@@ -177,6 +178,9 @@ func (t *textFlow) walkCall(cl *ssa.Call, idx int, d int) {
 	case "strings.TrimSpace":
 		arg := cl.Call.Args[0]
 		if t.field == "Title" && trimAllowedOn(arg) {
+			if k, _ := lookupKeyOf(resolve(arg)); k != "" {
+				t.trimmedKey = k
+			}
 			t.walk(arg, d+1)
 			return
 		}
@@ -261,6 +265,25 @@ func ruleOU4(c *Ctx) {
 			c.check(len(tf.problems) == 0, c.Name(em.Fn), em.construct(t)+"|"+fl+"-verbatim", c.Pos(em.Call.Pos()),
 				fmt.Sprintf("%s reaches the event through %d copy steps, untransformed", fl, tf.steps),
 				"the "+strings.ToLower(fl)+" recorded by this event is altered on the way from the input: "+strings.Join(uniq(tf.problems), "; "))
+			// the documented trimming belongs to `set` (and the --title flag): a creation that hands its input on to
+			// the same builder must not carry the "title" key, or the title given at creation comes back trimmed
+			if tf.trimmedKey != "" && len(tf.problems) == 0 {
+				for _, ch := range c.callbackChains(em.Fn, 3) {
+					creates := false
+					for _, em2 := range c.emissions() {
+						if em2.Fn == ch.Callback && (em2.has("new_task") || em2.has("new_epic")) {
+							creates = true
+						}
+					}
+					if !creates {
+						continue
+					}
+					okL, why := c.chainLacksKey(ch, tf.trimmedKey)
+					c.check(okL, c.Name(em.Fn), em.construct(t)+"|"+fl+"-trim-not-at-creation@"+c.Name(ch.Callback), c.Pos(em.Call.Pos()),
+						"the creation path hands this builder an update map without the \""+tf.trimmedKey+"\" key ("+why+")",
+						"the creating command "+c.Name(ch.Callback)+" can hand this builder the \""+tf.trimmedKey+"\" key ("+why+"): a title supplied at creation is recorded a second time, trimmed, and replay keeps the trimmed one")
+				}
+			}
 		}
 	}
 	if n == 0 {
